@@ -10,6 +10,7 @@ import (
 	"github.com/buildbuildio/pebbles/gqlerrors"
 	"github.com/buildbuildio/pebbles/planner"
 	"github.com/buildbuildio/pebbles/requests"
+	"github.com/buildbuildio/pebbles/verifhook"
 	"github.com/gobwas/ws/wsutil"
 )
 
@@ -126,29 +127,40 @@ func (se *subscriptionEntry) prepareResponse(resp *requests.Response) *requests.
 }
 
 func (se *subscriptionEntry) Close() {
+	verifhook.At("sub.close.enter", se)
 	se.TryLock()
+	verifhook.At("sub.close.after_trylock", se)
 	isClosed := se.isClosed
 	se.Unlock()
 	if isClosed {
+		verifhook.At("sub.close.already_closed", se)
 		return
 	}
+	verifhook.At("sub.close.before_send", se)
 	se.closeCh <- struct{}{}
+	verifhook.At("sub.close.sent", se)
 }
 
 func (se *subscriptionEntry) Listen(conn net.Conn) {
 	defer func() {
+		verifhook.At("sub.listen.defer.enter", se)
 		se.queryerCloseCh <- struct{}{}
+		verifhook.At("sub.listen.defer.queryer_closed", se)
 		se.Lock()
 		defer se.Unlock()
+		verifhook.At("sub.listen.defer.locked", se)
 		close(se.queryerCloseCh)
 		close(se.closeCh)
 		close(se.respCh)
 		se.isClosed = true
+		verifhook.At("sub.listen.defer.closed", se)
 	}()
 
 	for {
+		verifhook.At("sub.listen.loop", se)
 		select {
 		case resp := <-se.respCh:
+			verifhook.At("sub.listen.got_resp", se)
 			if resp == nil {
 				return
 			}
@@ -161,10 +173,13 @@ func (se *subscriptionEntry) Listen(conn net.Conn) {
 			if err != nil {
 				return
 			}
+			verifhook.At("sub.listen.before_write", se)
 			if err := wsutil.WriteServerText(conn, bResp); err != nil {
 				return
 			}
+			verifhook.At("sub.listen.wrote", se)
 		case <-se.closeCh:
+			verifhook.At("sub.listen.got_close", se)
 			return
 		}
 
